@@ -174,3 +174,10 @@ CHECKS["C22"] = {
     "text": "Invokes of 1-2 (quick) / 1-3 (thorough) kernels over 3 fields with per-argument access {READ, WRITE, INC, READINC, READWRITE} x continuous / discontinuous / any_space x stencils (x1d/cross/region, extent 1-2) plus dof built-ins, x annexed setting x every initial halo state per field (dirty, clean to 1,2,3) x BFS over <=2 / <=3 accepted transformations (redundant computation depth 1,2,max; colouring; OpenMP; async halo exchange; moving a halo exchange; loop fusion): quick 190k executions of 5.1k PSy layers, thorough 827k / 17k. Oracles use values only: owned DoFs equal the serial run; every halo copy within a claimed-clean depth equals the owner's value; no undefined value flows into an owned DoF.",
     "note": "The ring machine is the trusted model of the LFRic runtime (transcribed from the shipped infrastructure sources and developer guide; a model-fidelity self-test runs at start-up, failure = exit 2). N=4 cells per partition, halo depth 3, one layer; OpenMP regions executed serially; fused loops judged only when serially equivalent. Fixed: GH_WRITE-only kernels on discontinuous fields read dirty annexed DoFs when annexed computation is off.",
 }
+
+CHECKS["C23"] = {
+    "level": "model_checking",
+    "technique": "explicit-state BFS over histories of the nine LFRic colouring / OpenMP / OpenACC / fusion / move transformations (no force options) on generated 1-2 kernel invokes for every legal (access x function space) kernel; state = schedule view; every accepted state holding a work-sharing directive is generated with the real psy.gen and judged by two independent structural oracles (schedule tree and generated Fortran text) using the check's own table of which kernels increment a continuous space",
+    "text": "26 legal kernels (GH_INC/READINC/WRITE/READWRITE x w0..wtheta, any_space, any_discontinuous_space...), 1- and 2-kernel invokes, dm off and on; quick: single-kernel invokes to depth 3, pairs to depth 2-3 (180k operation applications, 36.8k states, 5.1k generated and judged); thorough: depth 4 / 3 (4.2M applications, 790k states, 104k judged). No parallel (omp do / parallel do / acc loop) loop over cells may contain a kernel incrementing a continuous or unknown space unless it is a loop over the cells of one colour; no loop over colours may sit under a parallel directive.",
+    "note": "Weaker reading: a state is 'produced' only when psy.gen succeeds; loops merely inside acc parallel/kernels regions (PSyclone's documented recipe) are counted, not judged; `same_space` is treated as a force option. Fixed: GH_READINC not treated as an increment; colouring allowed under an acc loop directive.",
+}
